@@ -4,15 +4,17 @@ use serde_json::Value;
 
 pub mod c01;
 pub mod c02;
+pub mod c11;
 pub mod c16;
 pub mod c18;
 
-pub const ALL: &[&str] = &["C01", "C02", "C16", "C18"];
+pub const ALL: &[&str] = &["C01", "C02", "C11", "C16", "C18"];
 
 pub fn run(ctx: &Ctx) -> Option<Outcome> {
     Some(match ctx.id.as_str() {
         "C01" => c01::run(ctx),
         "C02" => c02::run(ctx),
+        "C11" => c11::run(ctx),
         "C16" => c16::run(ctx),
         "C18" => c18::run(ctx),
         _ => return None,
@@ -24,6 +26,7 @@ pub fn replay(id: &str, kind: &str, case: &Value) -> Option<Result<(), String>> 
     Some(match id {
         "C01" => c01::replay(kind, case),
         "C02" => c02::replay(kind, case),
+        "C11" => c11::replay(kind, case),
         "C16" => c16::replay(kind, case),
         "C18" => c18::replay(kind, case),
         _ => return None,
